@@ -43,6 +43,13 @@ def histories(rng, tier):
                         ln = ' '.join([t for t in toks if not t.startswith(('pix=', 'val=', 'vals='))] +
                                       [one, 'val=' + v1])
                     ln += ' via=' + via
+                elif 'pix=_' not in ln and rng.random() < 0.15:
+                    # update_values_pos at the pixel centres (hpgeom gives the centres)
+                    import numpy as np
+                    import hpgeom as hpg
+                    pp = np.array([int(x) for x in [t for t in ln.split() if t.startswith('pix=')][0][4:].split(',')])
+                    lon, lat = hpg.pixel_to_angle(2 ** c.spord, pp)
+                    ln += ' lon=%s lat=%s' % (','.join(repr(float(x)) for x in lon), ','.join(repr(float(x)) for x in lat))
                 h.append(ln)
             h.append('state %s' % c.name)
             if rng.random() < 0.3:
